@@ -160,6 +160,7 @@ SPEC_GLOBALS = {
     "iff": SpecOp("iff"),
     "typeis": SpecOp("typeis"),
     "forall_str": SpecOp("forall_str"),
+    "unchanged": SpecOp("unchanged"),
 }
 SPEC_GLOBALS.update(SPEC_FUNS)
 
@@ -185,7 +186,20 @@ def py_typeis(v, name):
     return type(v).__name__ == name
 
 
+def py_unchanged(a, b):
+    import ast as _ast
+
+    if isinstance(a, _ast.AST) and isinstance(b, _ast.AST):
+        return _ast.dump(a) == _ast.dump(b)
+    if isinstance(a, dict) and isinstance(b, dict):
+        return list(a.keys()) == list(b.keys()) and all(py_unchanged(a[k], b[k]) for k in a)
+    if isinstance(a, (list, tuple)) and isinstance(b, (list, tuple)):
+        return len(a) == len(b) and all(py_unchanged(x, y) for x, y in zip(a, b))
+    return type(a) is type(b) and a == b
+
+
 PY_GLOBALS = {
+    "unchanged": py_unchanged,
     "forall": py_forall,
     "exists": py_exists,
     "implies": py_implies,
